@@ -32,10 +32,10 @@ def shards(tier, seed):
         out.append({'name': f'handshake-prss{int(prss)}', 'kind': 'handshake', 'prss': prss})
     out.append({'name': 'single-frame-exhaustive-c2s', 'kind': 'single', 'dir': 'c2s'})
     out.append({'name': 'single-frame-exhaustive-s2c', 'kind': 'single', 'dir': 's2c'})
-    nm = 4 if tier == 'quick' else 12
+    nm = 4 if tier == 'quick' else 24
     for k in range(nm):
         out.append({'name': f'multi-{k}', 'kind': 'multi', 'k': k})
-    ns = 6 if tier == 'quick' else 32
+    ns = 6 if tier == 'quick' else 64
     for k in range(ns):
         out.append({'name': f'session-{k}', 'kind': 'session', 'k': k, 'frames': 40 if tier == 'quick' else 400})
     return out
